@@ -49,7 +49,7 @@ pub fn cfg_for(profile: &str, thorough: bool) -> GenCfg {
         "C04" => GenCfg { profile: "C04", retain: false, take: false, ..base },
         "C06" => GenCfg { profile: "C06", close: true, resize: true, drop_handles: true, ..base },
         "C07" => GenCfg { profile: "C07", resize: true, ..base },
-        "C08" => GenCfg { profile: "C08", resize: true, no_runtime_calls: true, ..base },
+        "C08" => GenCfg { profile: "C08", resize: true, no_runtime_calls: true, drop_handles: true, ..base },
         "C09" => GenCfg { profile: "C09", resize: true, close: true, ..base },
         "C10" => GenCfg { profile: "C10", no_runtime_calls: true, resize: true, ..base },
         "C11" => GenCfg { profile: "C11", close: true, resize: true, ..base },
@@ -234,6 +234,8 @@ pub fn gen_managed(rng: &mut Rng, cfg: &GenCfg) -> MScenario {
     let heavy_block = rng.below(100) < 30;
     // C07: many resizes, many abandoned gets (permits that come back behind the pool's back)
     let resize_heavy = cfg.profile == "C07" && rng.below(100) < 50;
+    // a share of the runs has a second, unrelated pool come and go next to the one under test
+    let sibling = rng.below(100) < 10;
     let mut actors = Vec::new();
     for _ in 0..n_actors {
         let n_ops = if reuse_mode { rng.range(cfg.max_ops / 2, cfg.max_ops + 2) } else { rng.range(1, cfg.max_ops) };
@@ -278,7 +280,7 @@ pub fn gen_managed(rng: &mut Rng, cfg: &GenCfg) -> MScenario {
                         cancellable: cfg.cancel && rng.below(100) < if resize_heavy { 65 } else { 35 },
                     }
                 }
-                1 => Op::Return { slot: rng.below(4) as u8 },
+                1 => Op::Return { slot: rng.below(4) as u8, unwinding: cfg.faults && rng.below(100) < 7 },
                 2 => Op::Take { slot: rng.below(4) as u8, detach_panics: cfg.faults && rng.below(100) < 12 },
                 3 => Op::Retain {
                     pred: match rng.below(6) {
@@ -302,6 +304,9 @@ pub fn gen_managed(rng: &mut Rng, cfg: &GenCfg) -> MScenario {
                 _ => Op::DropHandle,
             };
             ops.push(op);
+            if sibling && rng.below(100) < 15 {
+                ops.push(Op::Sibling { kind: rng.below(2) as u8 });
+            }
         }
         actors.push(ops);
     }
@@ -316,6 +321,9 @@ pub fn gen_managed(rng: &mut Rng, cfg: &GenCfg) -> MScenario {
         rest_every: 0,
     };
     sc.knobs = gen_knobs(rng, sc.has_panic_outcome(), true);
+    if sibling && !sc.knobs.sites.iter().any(|s| s == "harness.dtor") {
+        sc.knobs.sites.push("harness.dtor".to_string());
+    }
     if !cfg.cancel {
         sc.knobs.p_cancel = 0;
     } else if resize_heavy && sc.knobs.p_cancel < 100 {
